@@ -14,8 +14,9 @@ VERIF = "/verif"
 round2 = "--round2" in sys.argv
 round3 = "--round3" in sys.argv
 round4 = "--round4" in sys.argv
+round5 = "--round5" in sys.argv
 only = [a for a in sys.argv[1:] if not a.startswith("--")]
-SUFFIX = {"A": "G", "B": "H"} if round4 else {"A": "E", "B": "F"} if round3 else {"A": "C", "B": "D"} if round2 else {"A": "A", "B": "B"}
+SUFFIX = {"A": "I", "B": "J"} if round5 else {"A": "G", "B": "H"} if round4 else {"A": "E", "B": "F"} if round3 else {"A": "C", "B": "D"} if round2 else {"A": "A", "B": "B"}
 
 
 def sh(cmd, cwd=None, env=None, timeout=3600):
@@ -77,7 +78,7 @@ for mdir in sorted(glob.glob("/tmp/wt/C*/MUTANT")):
                 if os.path.exists(notes):
                     shutil.copy(notes, os.path.join(out, "agent_notes.md"))
                 json.dump({"id": name, "breaks_property": pid, "demo": "demo_%s.py" % letter,
-                           "needs": "see agent_notes.md (section for mutant %s)" % letter, "round": 4 if round4 else 3 if round3 else 2 if round2 else 1,
+                           "needs": "see agent_notes.md (section for mutant %s)" % letter, "round": 5 if round5 else 4 if round4 else 3 if round3 else 2 if round2 else 1,
                            "ran": {"tests_with_patch": meta["tests"], "demo_clean_exit": meta["demo_clean_exit"],
                                    "demo_with_patch_exit": meta["demo_mutant_exit"],
                                    "our_check": "./check %s --tier quick (PICOSVG_REPO=<scratch worktree with the patch>)" % pid,
@@ -89,4 +90,4 @@ for mdir in sorted(glob.glob("/tmp/wt/C*/MUTANT")):
             print(json.dumps({k: meta.get(k) for k in ("id", "applies", "demo_clean_exit", "tests", "demo_mutant_exit",
                                                         "check_exit", "confirmed")}), flush=True)
             sh("git -C /repo worktree remove --force %s; rm -rf %s" % (wt, wt))
-json.dump(results, open("/tmp/cm/results%s.json" % ("4" if round4 else "3" if round3 else "2" if round2 else ""), "a"), indent=1)
+json.dump(results, open("/tmp/cm/results%s.json" % ("5" if round5 else "4" if round4 else "3" if round3 else "2" if round2 else ""), "a"), indent=1)
